@@ -472,7 +472,8 @@ Proof.
   - intros b w H. sv H.
   - intros n w H. sv H.
   - intros t b w H. intros x Hx. cbn in Hx. rewrite aupd_keys in Hx. apply H in Hx. exact Hx.
-  - intros t w H. eapply sa_sview; [|exact H]. apply sview_drop_callback.
+  - intros t k w H _. unfold rn_dropped. eapply sa_sview; [|exact H]. apply sview_drop_callback.
+  - intros t k w H _. unfold rn_despawn_missing. eapply sa_sview; [|apply sa_despawn; eapply sa_sview; [apply sview_drop_callback|exact H]]. reflexivity.
   - intros t w H. apply sa_despawn. exact H.
   - intros t cb b w H. sv H.
   - intros t tk w H. unfold once_finish. destruct (alookup t (cbs w)); [sv H|exact H].
@@ -767,13 +768,13 @@ Proof.
       - (* dead *)
         apply (Hgone (rn_dropped t k w2)); [| | |exact E3].
         + unfold rn_dropped. apply evolves_rview. cbn. apply rview_drop_callback.
-        + unfold rn_dropped. eapply (c_emit _ _ (sa_closed P)). eapply (c_dropcb _ _ (sa_closed P)). apply (ic_alive _ _ I2).
+        + eapply (c_dropped _ _ (sa_closed P)); [apply (ic_alive _ _ I2)|exact EL].
         + apply lookup_dead_storage; [apply (ic_alive _ _ I2)|exact EL].
       - (* storage missing *)
         apply (Hgone (rn_despawn_missing t k w2)); [| |exact Hls|exact E3].
         + unfold rn_despawn_missing. eapply evolves_trans; [apply evolves_rview; apply rview_drop_callback|].
           eapply evolves_trans; [apply evolves_despawn|]. apply evolves_rview. reflexivity.
-        + unfold rn_despawn_missing. eapply (c_emit _ _ (sa_closed P)). eapply (c_despawn _ _ (sa_closed P)). eapply (c_dropcb _ _ (sa_closed P)). apply (ic_alive _ _ I2).
+        + eapply (c_missing _ _ (sa_closed P)); [apply (ic_alive _ _ I2)|exact EL].
       - (* the normal case: put the callback back *)
         inversion E3; subst. unfold rn_reinsert. cbn. destruct I2 as [J1 J2 J3 J4 J5]. split; [|split; [exact H2|exact Hc2]]. constructor; cbn.
         + intros u Hu. destruct (N.eq_dec u t) as [->|Hne]; [rewrite alookup_aupd_same, Hls in Hu; discriminate|].
@@ -841,7 +842,7 @@ Proof.
   - (* IBody *)
     destruct HP as (HI & Hincl & Hh & Hc). change (default_post A B w w').
     assert (Hpre : default_pre A B w) by exact (conj HI (conj Hincl (conj Hh Hc))).
-    destruct (find_sys P t) as [sd|]; [|discriminate E].
+    cbn zeta in E. set (sd := sys_or_default P t) in *.
     assert (Hev0 : evolves w (body_begin P sd t runno captured w)) by (apply evolves_rview; apply rview_body_begin).
     assert (Hb : default_pre A B (body_begin P sd t runno captured w)).
     { apply (PreR_step A B w); [eapply (c_body _ _ (sa_closed P)); exact (ic_alive _ _ HI)|exact Hev0|exact Hpre]. }
